@@ -58,7 +58,7 @@ NeedsDev(e) == IF e.e = "I" /\ ~InjIdeal(e) /\ InjDevF8(e) THEN {DevF8} ELSE {}
 TInit == /\ TLCSet(1, 0)
          /\ l = 1 /\ bad = <<>> /\ devAt = [d \in {} |-> 0] /\ nexec = 0
          /\ kinds = [k \in {"accept", "either", "reject", "inject", "noinject"} |-> 0]
-         /\ phase = "trace" /\ sc = NoSC /\ car = EmptyCar /\ res = Rej /\ devUsed = {}
+         /\ phase = "trace" /\ sc = NoSC /\ car = EmptyCar /\ res = Rej /\ devUsed = {} /\ tl = NoTail
 
 TStep == /\ l <= Len(TraceLog) /\ l' = l + 1 /\ nexec' = nexec + 1
          /\ IF Explained(Ev)
